@@ -86,7 +86,7 @@ def simple(s):
                                    for a in s['args']) + ')'
     if k == 'nth':
         name = ':nth-' + ('last-' if s['last'] else '') + ('of-type' if s['oftype'] else 'child')
-        t = name + '(' + nth_text(s['a'], s['b'])
+        t = name + '(' + (st(s['raw']) if s.get('raw') else nth_text(s['a'], s['b']))
         if s['of']:
             t += ' of ' + ', '.join(complex_(c) for c in s['of'])
         return t + ')'
